@@ -117,11 +117,12 @@ func (g *mgen) value() string {
 	case 1:
 		return strconv.Itoa(g.r.Intn(30)) + "." + []string{"5", "05", "25", "003", "10", "0", "999"}[g.r.Intn(7)]
 	case 2:
-		return []string{"true", "false", "True", "FALSE"}[g.r.Intn(4)]
+		return []string{"true", "false", "True", "FALSE", "tRuE", "fAlSe", "TRUE", "False"}[g.r.Intn(8)]
 	case 3:
-		return `"` + []string{"quoted text", "a \\\"q\\\" b", "", "ünï", "with ] bracket", "% of \\%"}[g.r.Intn(6)] + `"`
+		return `"` + []string{"quoted text", "a \\\"q\\\" b", "", "ünï", "with ] bracket", "% of \\%", "%\\\\", "% \\\\", "\\\\", "x\\\\%"}[g.r.Intn(10)] + `"`
 	case 4:
-		return []string{"angry", "bare_word", "é1", "x"}[g.r.Intn(4)]
+		// bare words, among them the ones strconv.ParseBool would take for booleans
+		return []string{"angry", "bare_word", "é1", "x", "t", "T", "f", "F", "tru", "yes", "no", "on", "nil", "null"}[g.r.Intn(14)]
 	default:
 		return strconv.Itoa(g.r.Intn(5))
 	}
@@ -148,7 +149,10 @@ func (g *mgen) replacement() string {
 		}
 		return ascii
 	}
-	switch g.r.Intn(6) {
+	switch g.r.Intn(7) {
+	case 6:
+		// replacement texts ending in a backslash, with and without a placeholder before it
+		return "[select value=" + strconv.Itoa(g.r.Intn(4)) + ` 0="%\\" 1="one\\" 2="%:\\" 3="\\%\\"/]`
 	case 0:
 		v := g.r.Intn(4)
 		return "[select value=" + strconv.Itoa(v) + pick(" 0=zero 1=\"one %\" 2=two 3=\"\\% three\"/]", " 0=zéro 1=\"ün %\" 2=日本 3=\"\\% 𝄞\"/]")
